@@ -262,6 +262,11 @@ class Prop(Check):
         "Link.C10_iff_desc",
         "Link.C10_unknown_iff'",
         "Link.C10_no_ref'",
+        "Link.C10_split_spec",
+        "Link.C10_split_unique",
+        "Link.C10_text_iff",
+        "Link.C10_empty_part",
+        "Link.C10_heap_frame",
     ]
     DRIVER = "Drivers/Link.lean"
     QUICK_CASES = 450
